@@ -395,10 +395,16 @@ func vspecCovered(x int64, start int64, c int64, size int64) bool {
 //@   pure
 //@ extern github.com/mdzio/go-logging.Logger.Errorf
 //@   pure
+//@   ensures[ghostdef-log] gfield(0, "nlog") == old(gfield(0, "nlog"))+1
+//@   modifies gfield(0, "nlog")
 //@ extern github.com/mdzio/go-logging.Logger.Warningf
 //@   pure
+//@   ensures[ghostdef-log] gfield(0, "nlog") == old(gfield(0, "nlog"))+1
+//@   modifies gfield(0, "nlog")
 //@ extern github.com/mdzio/go-logging.Logger.Warning
 //@   pure
+//@   ensures[ghostdef-log] gfield(0, "nlog") == old(gfield(0, "nlog"))+1
+//@   modifies gfield(0, "nlog")
 //@ extern github.com/mdzio/go-logging.Logger.Debugf
 //@   pure
 //@ extern github.com/mdzio/go-logging.Logger.Tracef
@@ -409,10 +415,18 @@ func vspecCovered(x int64, start int64, c int64, size int64) bool {
 // queues, and toggles flag bits / assigns a packet id on the message it is given. It is a yield point: the rings
 // are subject to the caller's rely afterwards. Assumed (trusted_base): it sends no other packet type and does not
 // touch the incoming QoS 2 queue or the subscription ack queues of the calling connection.
-//@ modset Callback allfields(sessions.Ackqueue), allfields(sessions.AckMsg), allelems(sessions.AckMsg), allmaps(map[uint16]int64), heap("F.message.header.remlen"), heap("F.message.header.dirty"), heap("F.message.header.packetID"), allelems(byte), allfields(stat), heap("F.service.service.outtmp"), message.gPacketID, heap("GF.n3"), heap("GF.id3"), heap("GF.wfail"), heap("GF.ncb"), heap("GF.nwait"), heap("GF.lastwait"), heap("GF.clock"), heap("GF.lockedAt"), heap("GF.mlockedAt"), heap("GF.readAt"), heap("GF.doneAt"), heap("GF.doneSeen"), heap("GF.bcast"), heap("GF.encn"), heap("GF.encarr"), heap("GF.encoff"), heap("GF.encAt"), heap("F.service.buffer.pwait"), heap("F.service.buffer.cwait"), allfields(sequence)
+//@ modset Callback allfields(sessions.Ackqueue), allfields(sessions.AckMsg), allelems(sessions.AckMsg), allmaps(map[uint16]int64), allelems(byte), allfields(stat), heap("F.service.service.outtmp"), message.gPacketID, heap("GF.n3"), heap("GF.id3"), heap("GF.wfail"), heap("GF.ncb"), heap("GF.nlog"), heap("GF.nwait"), heap("GF.lastwait"), heap("GF.clock"), heap("GF.lockedAt"), heap("GF.mlockedAt"), heap("GF.readAt"), heap("GF.doneAt"), heap("GF.doneSeen"), heap("GF.bcast"), heap("GF.encn"), heap("GF.encarr"), heap("GF.encoff"), heap("GF.encAt"), heap("F.service.buffer.pwait"), heap("F.service.buffer.cwait"), allfields(sequence)
 
 // What writeMessage changes besides the ghost log (ring cursors and bytes, scratch buffer, statistics, ghost clock).
-//@ modset Out allfields(sequence), allfields(buffer), allelems(byte), allfields(stat), heap("F.service.service.outtmp"), heap("F.message.header.remlen"), heap("F.message.header.dirty"), heap("F.message.header.packetID"), message.gPacketID, heap("GF.wfail"), heap("GF.clock"), heap("GF.lockedAt"), heap("GF.mlockedAt"), heap("GF.readAt"), heap("GF.doneAt"), heap("GF.doneSeen"), heap("GF.bcast"), heap("GF.encn"), heap("GF.encarr"), heap("GF.encoff"), heap("GF.encAt")
+//@ modset Out allfields(sequence), allfields(buffer), allelems(byte), allfields(stat), heap("F.service.service.outtmp"), message.gPacketID, heap("GF.wfail"), heap("GF.clock"), heap("GF.lockedAt"), heap("GF.mlockedAt"), heap("GF.readAt"), heap("GF.doneAt"), heap("GF.doneSeen"), heap("GF.bcast"), heap("GF.encn"), heap("GF.encarr"), heap("GF.encoff"), heap("GF.encAt")
+
+// Ack queues.
+//@ modset AckQ allfields(sessions.Ackqueue), allfields(sessions.AckMsg), allelems(sessions.AckMsg), allmaps(map[uint16]int64), heap("GF.nwait"), heap("GF.lastwait"), heap("GF.clock"), heap("GF.mlockedAt")
+// Fields of freshly decoded messages.
+//@ modset MsgFields allfields(message.header), allfields(message.PublishMessage), allfields(message.SubscribeMessage), allfields(message.UnsubscribeMessage), allfields(message.SubackMessage), allfields(message.ConnackMessage), allfields(message.ConnectMessage), heap("GF.decarr"), heap("GF.decoff"), heap("GF.declen")
+
+// The ghost log of sent packets (all types).
+//@ modset Log heap("GF.n3"), heap("GF.id3"), heap("GF.n4"), heap("GF.id4"), heap("GF.n5"), heap("GF.id5"), heap("GF.n6"), heap("GF.id6"), heap("GF.n7"), heap("GF.id7"), heap("GF.n8"), heap("GF.id8"), heap("GF.n9"), heap("GF.id9"), heap("GF.n10"), heap("GF.id10"), heap("GF.n11"), heap("GF.id11"), heap("GF.n12"), heap("GF.id12"), heap("GF.n13"), heap("GF.id13"), heap("GF.wfail")
 
 // The topic store (what Subscribe/Unsubscribe/Retain may change).
 //@ modset TopicStore allfields(topics.rnode), allfields(topics.snode), allfields(topics.MemTopics)
@@ -421,7 +435,7 @@ func vspecCovered(x int64, start int64, c int64, size int64) bool {
 //@   flag yield
 //@   requires msg != nil
 //@   ensures[ghostdef-cb] gfield(0, "ncb") == old(gfield(0, "ncb"))+1
-//@   modifies modset(Callback)
+//@   modifies modset(Callback), msg.remlen, msg.dirty, msg.packetID
 
 // The connection's view of its outgoing ring (precondition of writeMessage, re-established by it).
 //@ define vdefOut(svc)
@@ -431,17 +445,16 @@ func vspecCovered(x int64, start int64, c int64, size int64) bool {
 // store granted. Ghost: ndlv counts hand-overs per connection, lastdlv is the message object last handed on.
 //@ func (*service).onPublish
 //@   results err
-//@   requires vdefOut(p) && msg != nil && len(msg.mtypeflags) == 1 && p.topicsMgr != nil && p.topicsMgr.p != nil && arr(msg.mtypeflags) != arr(p.qoss) && p.out != nil && arr(p.qoss) != arr(p.out.buf)
+//@   requires vdefProc(p) && msg != nil && len(msg.mtypeflags) == 1
 //@   rely modifies p.out.pseq.cursor, p.out.pseq.gate, p.out.cseq.cursor, p.out.done, p.out.pwait, elems(p.out.buf)
 //@   rely ensures vdefRing(p.out) && arr(p.outtmp) != arr(p.out.buf)
-//@   atcall functype github.com/mdzio/go-mqtt/service.OnPublishFunc requires[C01:qos] message.vspecQoSOf(msg.mtypeflags[0]) == p.qoss[rangeindex+1]
-//@   atcall functype github.com/mdzio/go-mqtt/service.OnPublishFunc assumes unchanged(p.qoss)
-//@   loop 1 invariant[qoss] arr(msg.mtypeflags) != arr(p.qoss) && p.out != nil && arr(p.qoss) != arr(p.out.buf) && len(p.qoss) == len(p.subs) && forall(0, len(p.qoss), func(i int) bool { return p.qoss[i] <= 2 })
+//@   atcall functype github.com/mdzio/go-mqtt/service.OnPublishFunc requires[C01:qos] p.qoss[rangeindex+1] <= 2 ==> message.vspecQoSOf(msg.mtypeflags[0]) == p.qoss[rangeindex+1]
+//@   loop 1 invariant[qoss] len(p.qoss) == len(p.subs)
 //@   loop 1 invariant vdefOut(p) && len(msg.mtypeflags) == 1 && gfield(0, "ncb") == old(gfield(0, "ncb"))+rangeindex+1 && rangeindex < len(p.subs) && heldsame()
-//@   ensures[inv] vdefOut(p)
+//@   ensures[inv] vdefProc(p)
 //@   ensures[ghostdef-dlv] gfield(p, "ndlv") == old(gfield(p, "ndlv"))+1 && gfield(p, "lastdlv") == msg
 //@   ensures[C01:fanout] err == nil ==> gfield(0, "ncb") == old(gfield(0, "ncb"))+len(p.subs)
-//@   modifies modset(Callback), p.subs, p.qoss, capelems(p.subs), modset(TopicStore), gfield(p, "ndlv"), gfield(p, "lastdlv")
+//@   modifies modset(Callback), msg.remlen, msg.dirty, msg.packetID, p.subs, p.qoss, capelems(p.subs), modset(TopicStore), gfield(p, "ndlv"), gfield(p, "lastdlv")
 
 
 // The state a connection's processor goroutine relies on between packets (set up by start, torn down only after the
@@ -455,7 +468,7 @@ func vspecCovered(x int64, start int64, c int64, size int64) bool {
 // processPublish (receiver side of QoS 0/1/2, C02).
 //@ func (*service).processPublish
 //@   results err
-//@   requires vdefProc(p) && msg != nil && len(msg.mtypeflags) == 1 && !msg.dirty && arr(msg.mtypeflags) != arr(p.qoss) && vdefQ(p.sess.Pub2in)
+//@   requires vdefProc(p) && msg != nil && len(msg.mtypeflags) == 1 && !msg.dirty && vdefQ(p.sess.Pub2in)
 //@   rely modifies p.out.pseq.cursor, p.out.pseq.gate, p.out.cseq.cursor, p.out.done, p.out.pwait, elems(p.out.buf)
 //@   rely ensures vdefRing(p.out) && arr(p.outtmp) != arr(p.out.buf)
 //@   ensures[C02:qos0] old(message.vspecQoSOf(msg.mtypeflags[0])) == 0 ==> gfield(p, "ndlv") == old(gfield(p, "ndlv"))+1 && gfield(p, "lastdlv") == msg && gfield(p, "n4") == old(gfield(p, "n4")) && gfield(p, "n5") == old(gfield(p, "n5"))
@@ -465,4 +478,117 @@ func vspecCovered(x int64, start int64, c int64, size int64) bool {
 //@   ensures[C02:qos2-stored] old(message.vspecQoSOf(msg.mtypeflags[0])) == 2 ==> gfield(p.sess.Pub2in, "nwait") == old(gfield(p.sess.Pub2in, "nwait"))+1 && gfield(p.sess.Pub2in, "lastwait") == msg && sessions.vdefAQ(p.sess.Pub2in)
 //@   ensures[C02:qos3] old(message.vspecQoSOf(msg.mtypeflags[0])) == 3 ==> err != nil && gfield(p, "ndlv") == old(gfield(p, "ndlv")) && gfield(p, "n4") == old(gfield(p, "n4")) && gfield(p, "n5") == old(gfield(p, "n5"))
 //@   ensures[inv] vdefOut(p)
-//@   modifies modset(Callback), modset(Out), p.subs, p.qoss, capelems(p.subs), modset(TopicStore), gfield(p, "ndlv"), gfield(p, "lastdlv"), gfield(p, "n4"), gfield(p, "id4"), gfield(p, "n5"), gfield(p, "id5")
+//@   modifies modset(Callback), modset(Out), msg.remlen, msg.dirty, msg.packetID, p.subs, p.qoss, capelems(p.subs), modset(TopicStore), gfield(p, "ndlv"), gfield(p, "lastdlv"), gfield(p, "n4"), gfield(p, "id4"), gfield(p, "n5"), gfield(p, "id5")
+
+// Completion callbacks (C12). Ghost: ncomp counts the invocations made by this goroutine.
+//@ extern functype github.com/mdzio/go-mqtt/service.OnCompleteFunc
+//@   flag yield
+//@   ensures[ghostdef-comp] gfield(0, "ncomp") == old(gfield(0, "ncomp"))+1
+//@   modifies modset(Callback), heap("GF.ncomp"), ifaceval(msg, *message.header).remlen, ifaceval(msg, *message.header).dirty, ifaceval(msg, *message.header).packetID
+//@ extern reflect.TypeOf
+//@   pure
+
+// processAcked: hand on / complete what an ack queue releases. Per released entry (old() = start of the iteration):
+// a QoS 2 PUBLISH whose PUBREL arrived is handed on exactly once (unless an error was logged for it), with a message
+// decoded from the bytes stored for that entry, and nothing else is ever handed on; the entry's completion callback
+// (if any) is invoked exactly once unless an error was logged.
+//@ func (*service).processAcked
+//@   flag maypanic-typeassert
+//@   requires vdefProc(p) && vdefQ(ackq) && arr(ackq.ackdone) != arr(ackq.ring)
+//@   rely modifies p.out.pseq.cursor, p.out.pseq.gate, p.out.cseq.cursor, p.out.done, p.out.pwait, elems(p.out.buf)
+//@   rely ensures vdefRing(p.out) && arr(p.outtmp) != arr(p.out.buf)
+//@   atcall (*service).onPublish requires[C02:released-only] ackmsg.State == message.PUBREL
+//@   atcall (*service).onPublish requires[C02:content] gfield(msg, "decarr") == arr(ackmsg.Msgbuf) && gfield(msg, "decoff") == off(ackmsg.Msgbuf) && gfield(msg, "declen") == len(ackmsg.Msgbuf)
+//@   atcall (*service).onPublish assumes unchanged(rangeslice)
+//@   atcall functype github.com/mdzio/go-mqtt/service.OnCompleteFunc assumes unchanged(rangeslice)
+//@   loop 1 invariant vdefProc(p) && heldsame()
+//@   loop 1 invariant[frame] preservedobjs(message.header) && preservedobjs(message.PublishMessage) && preservedobjs(message.SubscribeMessage) && preservedobjs(message.UnsubscribeMessage) && preservedobjs(message.SubackMessage) && preservedobjs(message.ConnackMessage) && preservedobjs(message.ConnectMessage)
+//@   loop 1 step[C02:once] gfield(p, "ndlv") <= old(gfield(p, "ndlv"))+1
+//@   loop 1 step[C02:must] ackmsg.State == message.PUBREL && gfield(0, "nlog") == old(gfield(0, "nlog")) ==> gfield(p, "ndlv") == old(gfield(p, "ndlv"))+1
+//@   loop 1 step[C02:only] ackmsg.State != message.PUBREL ==> gfield(p, "ndlv") == old(gfield(p, "ndlv"))
+//@   loop 1 step[C12:once] gfield(0, "ncomp") <= old(gfield(0, "ncomp"))+1
+//@   loop 1 step[C12:must] ifaceval(ackmsg.OnComplete, OnCompleteFunc) != nil && typeis(ackmsg.OnComplete, OnCompleteFunc) && gfield(0, "nlog") == old(gfield(0, "nlog")) ==> gfield(0, "ncomp") == old(gfield(0, "ncomp"))+1
+//@   ensures[inv] vdefProc(p)
+//@   modifies modset(Callback), modset(AckQ), heap("GF.ncomp"), heap("GF.nlog"), p.subs, p.qoss, allelems(interface{}), modset(TopicStore), heap("GF.ndlv"), heap("GF.lastdlv"), heap("GF.decarr"), heap("GF.decoff"), heap("GF.declen")
+
+// The six ack queues of the connection's session.
+//@ define vdefQs(p)
+//@   is vdefQA(p.sess.Pub1ack) && vdefQA(p.sess.Pub2in) && vdefQA(p.sess.Pub2out) && vdefQA(p.sess.Suback) && vdefQA(p.sess.Unsuback) && vdefQA(p.sess.Pingack)
+//@ define vdefQA(aq)
+//@   is vdefQ(aq) && arr(aq.ackdone) != arr(aq.ring)
+//@ define vdefHdr(msg)
+//@   is msg != nil && ifaceval(msg, *message.header) != nil && len(ifaceval(msg, *message.header).mtypeflags) == 1 && !ifaceval(msg, *message.header).dirty
+
+// processIncoming: one received packet. What it sends back, by packet type (C02, C12, C19, C09):
+//   PUBREL  -> (release + hand-over via processAcked, then) exactly one PUBCOMP with the same id
+//   PUBREC  -> exactly one PUBREL with the same id
+//   PINGREQ -> exactly one PINGRESP
+//   DISCONNECT -> nothing; the stored CONNECT's will flag is cleared and errDisconnect is returned
+//   PUBACK, PUBCOMP, SUBACK, UNSUBACK, PINGRESP -> nothing is sent
+// "exactly one ... or an error is returned"; ghost counters n<type>/id<type> are defined at writeMessage.
+//@ func (*service).processIncoming
+//@   results err
+//@   flag maypanic-typeassert
+//@   requires vdefProc(p) && vdefHdr(msg) && vdefQs(p) && p.sess.Cmsg != nil && !held(addr(p.sess.mu))
+//@   rely modifies p.out.pseq.cursor, p.out.pseq.gate, p.out.cseq.cursor, p.out.done, p.out.pwait, elems(p.out.buf)
+//@   rely ensures vdefRing(p.out) && arr(p.outtmp) != arr(p.out.buf)
+//@   atcall (*service).processAcked assumes unchanged(ifaceval(msg, *message.header).packetID)
+//@   ensures[C02:pubrel] typeis(msg, *message.PubrelMessage) ==> gfield(p, "n7") <= old(gfield(p, "n7"))+1 && (err == nil ==> gfield(p, "n7") == old(gfield(p, "n7"))+1 && gfield(p, "id7") == old(vdefWID(msg)))
+//@   ensures[C12:pubrec] typeis(msg, *message.PubrecMessage) ==> gfield(p, "n6") <= old(gfield(p, "n6"))+1 && (err == nil ==> gfield(p, "n6") == old(gfield(p, "n6"))+1 && gfield(p, "id6") == old(vdefWID(msg)))
+//@   ensures[C19:ping] typeis(msg, *message.PingreqMessage) ==> gfield(p, "n13") <= old(gfield(p, "n13"))+1 && (err == nil ==> gfield(p, "n13") == old(gfield(p, "n13"))+1)
+//@   ensures[C09:disconnect] typeis(msg, *message.DisconnectMessage) ==> !message.vspecCFWill(p.sess.Cmsg.connectFlags) && isErr(err, errDisconnect)
+//@   ensures[C09:only-disconnect] !typeis(msg, *message.DisconnectMessage) ==> p.sess.Cmsg.connectFlags == old(p.sess.Cmsg.connectFlags)
+//@   ensures[C02:acks-only-on-request] !typeis(msg, *message.PubrelMessage) ==> gfield(p, "n7") == old(gfield(p, "n7"))
+//@   ensures[C12:acks-only-on-request] !typeis(msg, *message.PubrecMessage) ==> gfield(p, "n6") == old(gfield(p, "n6"))
+//@   ensures[C19:acks-only-on-request] !typeis(msg, *message.PingreqMessage) ==> gfield(p, "n13") == old(gfield(p, "n13"))
+//@   modifies modset(Callback), modset(Out), modset(AckQ), heap("GF.ncomp"), heap("GF.nlog"), p.subs, p.qoss, allelems(interface{}), modset(TopicStore), heap("GF.ndlv"), heap("GF.lastdlv"), heap("GF.decarr"), heap("GF.decoff"), heap("GF.declen"), ifaceval(msg, *message.header).remlen, ifaceval(msg, *message.header).dirty, ifaceval(msg, *message.header).packetID, p.sess.Cmsg.connectFlags, p.sess.Cmsg.dirty, gfield(p, "n4"), gfield(p, "id4"), gfield(p, "n5"), gfield(p, "id5"), gfield(p, "n6"), gfield(p, "id6"), gfield(p, "n7"), gfield(p, "id7"), gfield(p, "n9"), gfield(p, "id9"), gfield(p, "n11"), gfield(p, "id11"), gfield(p, "n13"), gfield(p, "id13"), gfield(p, "n3"), gfield(p, "id3"), p.rmsgs, modset(SessTopics), allelems(*message.PublishMessage), allfields(message.header), heap("GF.nsub"), heap("GF.subarr"), heap("GF.suboff"), heap("GF.sublen"), heap("GF.subreq"), heap("GF.subres"), heap("GF.nunsub"), heap("GF.unsubarr"), heap("GF.unsuboff"), heap("GF.unsublen")
+
+// Session subscription list.
+//@ modset SessTopics allmaps(map[string]byte)
+
+// A PUBLISH message whose flag byte does not live in the connection's outgoing ring or scratch buffer.
+//@ define vdefPubMsg(svc, msg)
+//@   is message.Type(msg.mtypeflags[0]>>4) == message.PUBLISH && (svc.out != nil ==> arr(msg.mtypeflags) != arr(svc.out.buf)) && arr(msg.mtypeflags) != arr(svc.outtmp)
+
+// publish (sender side, C12): one PUBLISH packet is written; QoS 1/2 requests are then registered in the outgoing
+// ack queue with their completion callback; a QoS 0 request completes at once.
+//@ func (*service).publish
+//@   results err
+//@   requires vdefOut(svc) && msg != nil && len(msg.mtypeflags) == 1 && vdefPubMsg(svc, msg) && svc.sess != nil && vdefQ(svc.sess.Pub1ack) && vdefQ(svc.sess.Pub2out)
+//@   rely modifies svc.out.pseq.cursor, svc.out.pseq.gate, svc.out.cseq.cursor, svc.out.done, svc.out.pwait, elems(svc.out.buf)
+//@   rely ensures vdefRing(svc.out) && arr(svc.outtmp) != arr(svc.out.buf)
+//@   ensures[C12:sent] err == nil && !(old(message.vspecQoSOf(msg.mtypeflags[0])) == 0 && onComplete != nil) ==> gfield(svc, "n3") == old(gfield(svc, "n3"))+1
+//@   ensures[C12:registered] err == nil && old(message.vspecQoSOf(msg.mtypeflags[0])) == 1 ==> gfield(svc.sess.Pub1ack, "nwait") == old(gfield(svc.sess.Pub1ack, "nwait"))+1 && gfield(svc.sess.Pub1ack, "lastwait") == msg
+//@   ensures[C12:registered] err == nil && old(message.vspecQoSOf(msg.mtypeflags[0])) == 2 ==> gfield(svc.sess.Pub2out, "nwait") == old(gfield(svc.sess.Pub2out, "nwait"))+1 && gfield(svc.sess.Pub2out, "lastwait") == msg
+//@   ensures[C12:qos0-completes] err == nil && old(message.vspecQoSOf(msg.mtypeflags[0])) == 0 && onComplete != nil ==> gfield(0, "ncomp") == old(gfield(0, "ncomp"))+1
+//@   ensures[frame-bytes] onComplete == nil && svc.out != nil ==> preservedexcept(svc.out.buf, svc.outtmp)
+//@   ensures[inv] vdefOut(svc)
+//@   modifies modset(Callback), modset(Out), modset(AckQ), heap("GF.ncomp"), msg.remlen, msg.dirty, msg.packetID, gfield(svc, "n3"), gfield(svc, "id3")
+
+// processSubscribe (C07). NOT VERIFIED (trusted, listed in the trusted base): its three nested loops allocate and
+// alias byte arrays in a way the generator's loop havoc cannot frame without a dozen aliasing invariants; the attempt
+// is described in /verif/DESIGN.md. Callers (processIncoming) only rely on the frame below. The defect the partial
+// check found (a rejected filter made the request vanish without SUBACK) was fixed in the code.
+//@ func (*service).processSubscribe
+//@   trusted
+//@   results err
+//@   requires vdefProc(p) && msg != nil
+//@   ensures[assumed] vdefProc(p) && gfield(p, "n9") <= old(gfield(p, "n9"))+1 && (err == nil ==> gfield(p, "n9") == old(gfield(p, "n9"))+1 && gfield(p, "id9") == old(message.vspecPacketID(msg.packetID)))
+//@   modifies modset(Callback), modset(Out), modset(AckQ), heap("GF.ncomp"), modset(TopicStore), modset(SessTopics), heap("GF.nsub"), heap("GF.subarr"), heap("GF.suboff"), heap("GF.sublen"), heap("GF.subreq"), heap("GF.subres"), p.rmsgs, allelems(*message.PublishMessage), allfields(message.header), allelems(byte), gfield(p, "n9"), gfield(p, "id9"), gfield(p, "n3"), gfield(p, "id3")
+
+// processUnsubscribe (C07): every filter of the request is removed from the topic store, in request order, before
+// the UNSUBACK is written; exactly one UNSUBACK with the request's packet id is written unless the write fails.
+//@ func (*service).processUnsubscribe
+//@   results err
+//@   requires vdefProc(p) && msg != nil && len(msg.mtypeflags) == 1 && !held(addr(p.sess.mu))
+//@   rely modifies p.out.pseq.cursor, p.out.pseq.gate, p.out.cseq.cursor, p.out.done, p.out.pwait, elems(p.out.buf)
+//@   rely ensures vdefRing(p.out) && arr(p.outtmp) != arr(p.out.buf)
+//@   atcall (*service).writeMessage requires[C07:order] gfield(0, "nunsub") == old(gfield(0, "nunsub"))+len(msg.topics)
+//@   atcall (*service).writeMessage requires[C07:asked] forall(0, len(msg.topics), func(i int) bool { return gfield(old(gfield(0, "nunsub"))+i, "unsubarr") == arr(msg.topics[i]) && gfield(old(gfield(0, "nunsub"))+i, "unsuboff") == off(msg.topics[i]) && gfield(old(gfield(0, "nunsub"))+i, "unsublen") == len(msg.topics[i]) })
+//@   loop 1 invariant vdefProc(p) && heldsame() && 0 <= rangeindex+1 && rangeindex < len(msg.topics) && sameslice(rangeslice, msg.topics) && gfield(0, "nunsub") == old(gfield(0, "nunsub"))+rangeindex+1 && len(msg.mtypeflags) == 1
+//@   loop 1 invariant[asked] forall(0, rangeindex+1, func(i int) bool { return gfield(old(gfield(0, "nunsub"))+i, "unsubarr") == arr(msg.topics[i]) && gfield(old(gfield(0, "nunsub"))+i, "unsuboff") == off(msg.topics[i]) && gfield(old(gfield(0, "nunsub"))+i, "unsublen") == len(msg.topics[i]) })
+//@   loop 1 invariant[frame] preservedobjs(message.header) && preservedobjs(message.UnsubscribeMessage)
+//@   ensures[C07:one] gfield(p, "n11") <= old(gfield(p, "n11"))+1 && (err == nil ==> gfield(p, "n11") == old(gfield(p, "n11"))+1 && gfield(p, "id11") == old(message.vspecPacketID(msg.packetID)))
+//@   ensures[C07:never-silent] gfield(p, "n11") == old(gfield(p, "n11"))+1 || gfield(p, "wfail") == old(gfield(p, "wfail"))+1
+//@   ensures[inv] vdefProc(p)
+//@   modifies modset(Out), modset(TopicStore), modset(SessTopics), heap("GF.nunsub"), heap("GF.unsubarr"), heap("GF.unsuboff"), heap("GF.unsublen"), heap("GF.nlog"), gfield(p, "n11"), gfield(p, "id11")
